@@ -120,6 +120,17 @@ CHECKS.update({
             "DESIGN.md §3 C16"),
 })
 
+CHECKS.update({
+    "C04": ("exploration",
+            "history + executable sequential model: connection operations recorded at the API boundary, the exported circuit (R2) "
+            "compared with the reference meaning (R1) of the final port->connection mapping only",
+            "Every (port, connectable kind) sequence up to length 3 and seeded histories up to length 8/12 over call / assignment / "
+            "connect / replace / disconnect on single instances, arrays and pairs, including other instances that refer to the "
+            "target's ports while it is being re-connected; every kind appears as replaced and as replacing object.",
+            "register-per-port model; valid final mappings only; connectables are not edited after connecting",
+            "DESIGN.md §3 C04"),
+})
+
 NOT_APPLICABLE = {}
 
 
